@@ -385,6 +385,7 @@ def _b5(ctx):
     from . import c14
     c14._a1(ctx, R)
     c14._a2_a4(ctx, R, R)
+    ctx.doc(R, "the returned join is the round joined at the configured tolerance: thresholds end at objective_tolerance, the last round cannot be skipped, dirty rounds only feed filters, exceptions are swallowed only on non-final rounds (C14-A1/A2/A4 under this rule id)")
     ctx.floor(R, 8)
 
 
